@@ -575,6 +575,32 @@ def family_programs():
                      ("def", "string", ("fn", [("q", None, False)],
                                         L("shadow")), True))], None)])),
         V("out")])))
+    # functions inside an object literal see the variables of the call of
+    # the enclosing function that created *this* object
+    progs.append(("object-factory", ("seq", [
+        ("def", "make", ("fn", [("step", None, False)], ("obj", [
+            ("get", ("fn", [("self", None, False)], V("step"))),
+            ("add", ("fn", [("self", None, False), ("n", None, False)],
+                     ("bin", "+", V("n"), V("step"))))])), True),
+        ("def", "a", ("call", V("make"), [("pos", L(1))])),
+        ("def", "b", ("call", V("make"), [("pos", L(10))])),
+        ("list", [("mcall", V("a"), "get", []), ("mcall", V("b"), "get", []),
+                  ("mcall", V("a"), "add", [("pos", L(5))]),
+                  ("mcall", V("b"), "add", [("pos", L(5))]),
+                  ("mcall", ("call", V("make"), [("pos", L(100))]),
+                   "get", [])])])))
+    progs.append(("object-factory", ("seq", [
+        ("def", "outer", ("fn", [("k", None, False)], ("seq", [
+            ("def", "local", ("bin", "*", V("k"), L(2))),
+            ("list", [("obj", [("f", ("fn", [("self", None, False)],
+                                      ("list", [V("k"), V("local")])))]),
+                      ("fn", [], V("local"))])])), True),
+        ("def", "p", ("call", V("outer"), [("pos", L(1))])),
+        ("def", "q", ("call", V("outer"), [("pos", L(7))])),
+        ("list", [("mcall", ("index", V("p"), L(0)), "f", []),
+                  ("mcall", ("index", V("q"), L(0)), "f", []),
+                  ("call", ("index", V("p"), L(1)), []),
+                  ("call", ("index", V("q"), L(1)), [])])])))
     # parameters shadow globals; assignment to a parameter stays local
     progs.append(("params", ("seq", [
         ("def", "x", L(1)),
